@@ -404,6 +404,11 @@ pub fn case_names(scratch: &Path, meta: usize, id: &str, seed: u64, len: usize, 
     for n in touched {
         r.violate("C17", format!("the library touched {}, which is not a regular WAL file", wal_name(n)));
     }
+    // the same kind of history runs clean in the `ops` campaign: a failure here is caused by the
+    // foreign entries or by the gaps in the numbering
+    if let Some(v) = r.viol.iter().find(|v| v.prop != "C17").cloned() {
+        r.violate("C17", format!("with foreign entries / numbering gaps in the directory the log misbehaves: [{}] {}", v.prop, v.what));
+    }
     r.stats.add("names.foreign_entries", foreign.len() as u64);
     let nontrivial = r.stats.get("rollover") >= 1 && r.stats.get("unlink") + r.stats.get("unlink.at_open") >= 1;
     finish_pub(r, id, nontrivial)
